@@ -241,3 +241,50 @@ func VerifC11Stop() {
 		vh.Assert(s.channel != "channel-0", "C11.stop.nothing-sent-to-stopped-consumer")
 	}
 }
+
+// VerifC11RemoveBatch: a removal batch of several due queue entries in which
+// some entries fail (a consumer stopped twice is queued twice, an entry of a
+// consumer that is no longer stopped): every stopped consumer with a due entry
+// is deleted whatever the position of the failing entries, the due entries are
+// consumed, and a consumer that is not stopped is left alone.
+func VerifC11RemoveBatch() {
+	e, _, _, _ := vC17Env()
+	ids := []string{"1", "2", "3"}
+	rt := vTimeIn("removal_time")
+	now := e.ctx.BlockTime()
+	vh.Assume(!rt.After(now))
+	// consumer "3" is either stopped or (already relaunched / never stopped) launched
+	thirdStopped := vh.ConcretizeInt(vh.Int("third_stopped"), 0, 1) == 1
+	for i, c := range ids {
+		ph := types.CONSUMER_PHASE_STOPPED
+		if i == 2 && !thirdStopped {
+			ph = types.CONSUMER_PHASE_LAUNCHED
+		}
+		e.k.SetConsumerPhase(e.ctx, c, ph)
+		vh.Assert(e.k.SetConsumerRemovalTime(e.ctx, c, rt) == nil, "C11.setup")
+	}
+	// queue: four entries over the three consumers, any order, repetitions allowed
+	inQueue := make([]bool, len(ids))
+	for j := 0; j < 4; j++ {
+		x := vh.ConcretizeInt(vh.Int(vh.Sprintf("entry%d", j)), 0, len(ids)-1)
+		inQueue[x] = true
+		vh.Assert(e.k.AppendConsumerToBeRemoved(e.ctx, ids[x], rt) == nil, "C11.setup")
+	}
+	err := e.k.BeginBlockRemoveConsumers(e.ctx)
+	vh.Reach("after-remove")
+	vh.Assert(err == nil, "C11.remove.no-error")
+	for i, c := range ids {
+		ph := e.k.GetConsumerPhase(e.ctx, c)
+		stopped := i != 2 || thirdStopped
+		switch {
+		case stopped && inQueue[i]:
+			vh.Assert(ph == types.CONSUMER_PHASE_DELETED, "C11.batch.every-due-stopped-consumer-is-deleted")
+		case stopped:
+			vh.Assert(ph == types.CONSUMER_PHASE_STOPPED, "C11.batch.unqueued-consumer-untouched")
+		default:
+			vh.Assert(ph == types.CONSUMER_PHASE_LAUNCHED, "C11.batch.non-stopped-consumer-never-deleted")
+		}
+	}
+	left, lerr := e.k.GetConsumersToBeRemoved(e.ctx, rt)
+	vh.Assert(lerr == nil && len(left.Ids) == 0, "C11.batch.due-entries-consumed")
+}
